@@ -92,6 +92,10 @@ let labels_of_part (env : env) (p : string) : label list =
     | Some (d, mm, n) when d = x && mm = m -> env.pf_count <- env.pf_count + 1; env.pf_count = n
     | _ -> false in
   match hd with
+  | "STRESS" ->
+      (* n idle sessions each ended by proxy shutdown: every one is this run of the model *)
+      env.started <- true;
+      [ IPreface true; ESend (Cl, KWin (true, O)); ESend (Sv, KWin (true, O)); EClosing ]
   | "PF" ->
       env.pf <- Some (side_of (List.nth f 1).[0], (List.nth f 2).[0], arg 3); []
   | "GRPC" -> env.grpc <- true; []
